@@ -17,6 +17,8 @@ CASES = []
 for meta in sorted(glob.glob(os.path.join(HERE, "seeded", "*", "meta.json"))):
     m = json.load(open(meta, encoding="utf-8"))
     d = os.path.dirname(meta)
+    if m.get("obsolete"):
+        continue  # a later repair of /repo removed what the seed relied on
     caught = m["breaks_property"] in m.get("caught_by", [])
     CASES.append((m["breaks_property"], "seeded/" + os.path.basename(d),
                   "<patch>", os.path.join(d, "patch.diff"), None,
